@@ -15,8 +15,8 @@ RULE = (
     "alternatives in any position (first, middle, last, all), 1-4 alternatives, nesting to depth 12 (quick) / 150 "
     "(thorough) with the deep spine in the first, middle or last alternative, branches of up to 1500 (quick) / 5000 "
     "(thorough) points, numbers spelled with signs, leading / trailing zeros, bare points and exponents, label case "
-    "varied, arbitrary runs of space / tab / newline between tokens and none where the lexer needs none, comments and "
-    "colours in the body, colours before the label. The generator emits the document and the expected node table "
+    "varied, arbitrary runs of space / tab / newline between tokens and none where the lexer needs none, comments after any point and between any two structural tokens of the body (after a split's "
+    "opening bracket, around '|', before a closing bracket), colours in the body, colours before the label. The generator emits the document and the expected node table "
     "from its own AST. Oracle: from_stream / convert(fname) / NeurolucidaAscToSwc()(fname) give exactly one node per "
     "point in document order with float32 coordinates and radius of the token's rational value, type 2 / 3 by label, "
     "parent = previous point of the branch or the last point before the enclosing split; stripping colours and "
@@ -78,6 +78,11 @@ def run_convert(case, ctx):
     want_type = 2 if doc["label"].upper() == "AXON" else 3
     ctx.nontrivial(_classify(ctx, doc))
     ctx.cls("via:" + case["via"], "label:" + doc["label"].upper())
+    for i, (k, _v) in enumerate(toks):
+        if k == "comment" and toks[i - 1][0] == "(":
+            ctx.cls("comment-right-after-a-split-opens")
+        elif k == "comment" and toks[i - 1][0] == "|":
+            ctx.cls("comment-right-after-a-bar")
     if case["via"] == "stream":
         tree = ctx.lib("from_stream", NeurolucidaAscToSwc.from_stream, io.StringIO(text))
     else:
@@ -184,7 +189,7 @@ SUBCHECKS = [
     Sub("convert", convert_strategy, run_convert, quick=1000, thorough=12000, shards_quick=8,
         required={"material-after-inner-split": 60, "empty-non-final-alternative": 60, "empty-first-alternative": 40,
                   "branch>=1000-points": 10, "nesting>=8": 10, "via:convert": 60, "via:call": 60,
-                  "has-colours-or-comments": 100, "label:AXON": 100, "label:DENDRITE": 100}),
+                  "has-colours-or-comments": 100, "comment-right-after-a-split-opens": 15, "comment-right-after-a-bar": 10, "label:AXON": 100, "label:DENDRITE": 100}),
     Sub("truncate", truncate_strategy, run_truncate, quick=400, thorough=5000, shards_quick=8,
         required={"cut:last-bracket-only": 200, "cut:inside": 500, "cut:char": 200}),
     Sub("corrupt", corrupt_strategy, run_corrupt, quick=900, thorough=9000, shards_quick=4,
